@@ -15,7 +15,7 @@ from cflib.crtp.crtpstack import CRTPPacket
 
 class Config:
     def __init__(self, n_log=3, n_param=2, fault_at=None, fault_mode='driver', log_crc=0x11111111, par_crc=0x22222222,
-                 needs_resending=False, hold_after=None, dup_notify=False, dup_after=None):
+                 needs_resending=False, hold_after=None, dup_notify=False, dup_after=None, mems=()):
         self.n_log, self.n_param = n_log, n_param
         self.fault_at, self.fault_mode = fault_at, fault_mode
         self.log_crc, self.par_crc = log_crc, par_crc
@@ -24,6 +24,7 @@ class Config:
         # [port, channel, first data byte, k]: the reply to that request is delivered a second time once k more
         # packets have been exchanged (a re-sent request answered twice, the second answer late)
         self.dup_after = dup_after
+        self.mems = tuple(mems)          # memory types the device reports (1 = 1-wire deck memory, 0 = I2C EEPROM, ...)
         self.dup_notify = dup_notify     # firmware re-announces parameter 0 (value-updated notifications) during the download
 
 
@@ -189,7 +190,15 @@ class FakeLink(CRTPDriver):
                     t = 0x07 if p == 5 else 0x08
                     self._reply(p, 0, struct.pack('<BHB', 2, i, t) + g + b'\0' + nm + b'\0')
         elif p == 4 and ch == 0 and d[:1] == b'\x01':
-            self._reply(4, 0, bytes([1, 0]))
+            self._reply(4, 0, bytes([1, len(c.mems)]))
+        elif p == 4 and ch == 0 and d[:1] == b'\x02':
+            i = d[1]
+            if i < len(c.mems):
+                self._reply(4, 0, struct.pack('<BBBI', 2, i, c.mems[i], 112) + bytes([i + 1] * 8))
+        elif p == 4 and ch == 1 and len(d) >= 6:
+            i, addr, ln = struct.unpack('<BIB', d[:6])
+            img = ow_image(i)
+            self._reply(4, 1, struct.pack('<BIB', i, addr, 0) + img[addr:addr + ln])
         elif p == 2 and ch == 1:
             i = struct.unpack('<H', d[0:2])[0]
             self._reply(2, 1, struct.pack('<HBB', i, 0, (i + 40) & 0xFF))
@@ -201,6 +210,19 @@ class FakeLink(CRTPDriver):
             self._reply(2, 2, d[0:2] + b'\x00' + d[2:])
         elif p == 5 and ch == 1:
             self._reply(5, 1, bytes([d[0], d[1] if len(d) > 1 else 0, 0]))
+
+
+def ow_image(i):
+    """content of 1-wire memory i: valid header, two elements, valid CRCs (as OWElement.write_data lays it out)"""
+    from zlib import crc32
+    h = struct.pack('<BIBB', 0xEB, 0, 0xBC, 1 + i)
+    h += bytes([crc32(h) & 0xFF])
+    el = b''
+    for key, txt in ((1, b'deck%d' % i), (2, b'A')):
+        el += struct.pack('BB', key, len(txt)) + txt
+    e = struct.pack('BB', 0, len(el)) + el
+    e += bytes([crc32(e) & 0xFF])
+    return (h + e).ljust(112, b'\xff')
 
 
 def install(cfg):
